@@ -28,7 +28,7 @@ def b01 (b : Bool) : String := if b then "1" else "0"
 /-- ids of the TxIn, of `Input::from_txin`, of the extracted input; then the extracted
     index / pegin flag / has_issuance and the PSET's index word / is_pegin / has_issuance -/
 def report (t : TxIn) : String :=
-  let p := PsetInput.fromTxin t
+  let p := IssPsetInput.fromTxin t
   let x := p.extractIn
   match t.issuanceIds hashes, p.issuanceIds hashes, x.issuanceIds hashes with
   | some a, some b, some c =>
@@ -74,8 +74,8 @@ def psetidsOp : Handler
   | _, [txid, idx, nonce, entropy, amount, comm] =>
     match Hex.decode txid, idx.toNat?, optHexArg nonce, optHexArg entropy, optNatArg amount, optHexArg comm with
     | some txid, some idx, some nonce, some entropy, some amount, some comm =>
-      let p : PsetInput := { previousTxid := txid, previousOutputIndex := idx, issuanceBlindingNonce := nonce,
-                             issuanceAssetEntropy := entropy, issuanceValueAmount := amount, issuanceValueComm := comm }
+      let p : IssPsetInput := { previousTxid := txid, previousOutputIndex := idx, issuanceBlindingNonce := nonce,
+                                issuanceAssetEntropy := entropy, issuanceValueAmount := amount, issuanceValueComm := comm }
       let x := p.extractIn
       match p.issuanceIds hashes, x.issuanceIds hashes with
       | some a, some b => s!"ok {idsStr (some a)} {idsStr (some b)} {x.previousOutput.vout} {b01 p.isPegin} {b01 p.hasIssuance}"
